@@ -27,7 +27,12 @@ LEVEL_NOTE = ("modelled, not verified: low/into.py node2task+graph2job, low/view
 TECHNIQUE = "Lean 4 proof (induction over argument lists / output lists) + differential correspondence with the real graph2job and runner"
 LEAN_PROPS = ["EkwVerif.Props.C10"]
 LEAN_DRIVERS = ["C10"]
-RULE = ("random graphs of 1-7 nodes built by hand (graph.Node), through fluent.Node, through a fluent program (from_source(yields=...).map) "
+RULE = ("random graphs of 1-7 nodes built by hand (graph.Node), through fluent.Node (30% of the later nodes are built from the very "
+        "Payload object of an earlier node, with another - often smaller - number of inputs), through a fluent program "
+        "(from_source(yields=...).map; or 1-2 dimensional sources followed by 1-4 map / reduce steps that share 1-3 payloads given as "
+        "Payload object, plain callable or functools.partial, with explicit placeholders; every run contains the batched reductions "
+        "with EVERY batch size 2..size+1 over EVERY size 2..9, i.e. multiples, remainders and singleton batches; the callables of these "
+        "programs return a value naming everything they received, so a stray or missing argument shows in every descendant) "
         "or directly as JobInstance: arity 0-6 with upstream/static positions mixed, 0-3 kwargs, input names inputN or arbitrary, the same "
         "parent output used by several inputs / several nodes / nobody, duplicated and missing placeholders, 1-14 outputs with numeric, "
         "unsorted or multi-letter names, generators yielding N-2..N+2 values, list/scalar/raising callables, keyword and positional edges "
@@ -38,6 +43,9 @@ ASSUMPTIONS = [
     "static arguments are str/int/None; upstream values are opaque tokens",
     "dict keys of node inputs, kwargs and output_schema are distinct (Python dicts); static_input_ps keys are decimal naturals",
     "edges name existing outputs of existing tasks (RunnerContext.project would raise KeyError otherwise; not modelled)",
+    "fluent programs (kind fprog): what a node declares is read off the graph the fluent calls produced (its inputs) and the payload "
+    "the author wrote (its arguments, completed by the inputs not placed explicitly); an 'inputK' string with K >= number of inputs of "
+    "the node is a string the author wrote, any other 'inputK' must arrive as the upstream value",
 ]
 
 
@@ -465,6 +473,8 @@ def _check_task(name, sp, run, status, spec):
             fails.append(({"kind": "unexpected-failure"}, "task %s failed with %s; declaration and yield count agree" % (name, run["error"])))
         return fails
     if "vals" in sp:
+        if fails:
+            return fails     # the value of such a callable names what it received: already reported
         want = {sp["outs"][k]: R.enc(sp["vals"][k]) for k in range(n)}
     elif sp["beh"]["kind"] == "gen":
         want = {sp["outs"][k]: R.enc(R.tok(sp["key"], k)) for k in range(n)}
